@@ -14,7 +14,10 @@ RULE = ("histories of public mutators of Tree/Node/Edge (random, <= 30 ops, tree
         "accounting, fresh-encoding comparison, model comparison. non-trivial = the step changed the tree or raised")
 MODELLED_NOT_VERIFIED = [
     "C03: Model/C03.lean is hand-written from the anchored routines; tied to the code by the per-step comparison of the whole "
-    "tree (ids, child order, taxa, exact lengths, rooting flag) after every operation of every history",
+    "tree (ids, child order, taxa, rooting flag) after every operation of every history. Child order is compared although the "
+    "statement does not fix it (by design: a wrong insert position is a book-keeping slip; a deliberate reordering in /repo "
+    "needs a model update). Edge lengths are compared too, but a difference in lengths ALONE is only counted "
+    "(model_differs_in_lengths_only:*), never reported - the statement does not speak of lengths",
     "C03: Model/C03Heap.lean (pointer primitives as written) is tied to Node/Edge by the `heap` comparison of parent pointers and "
     "child lists; the reseed chain is compared with Tree.reseed_at itself (all clean-up switched off)",
     "C03: `step` refuses (bad-input) operations naming nodes that are not in the tree or breaking the harness's issuing "
@@ -28,18 +31,20 @@ MODELLED_NOT_VERIFIED = [
     "the restructuring done by encode_bipartitions, not the masks (those are C01's)",
 ]
 EXPLANATION = ("Theorems (Props/C03.lean, no sorry/axioms): step_wf / history_wf - every operation of the 30-constructor alphabet "
-               "(incl. assigning Tree.seed_node to an attached node) and every finite history keeps the rose tree free of shared "
-               "nodes; step_keeps_leaves / history_keeps_leaves - for EVERY operation except shuffle_taxa and every history, on "
-               "a tree without shared nodes a taxon-bearing leaf that was not asked to be removed (nor given a child) stays a "
-               "leaf, same node, same taxon (clause (b) in identity form; the 14-operation step_keeps_leaves_partial / "
-               "history_keeps_leaves_partial need no well-formedness hypothesis); shuffle_keeps_leaf_taxa - shuffle_taxa "
-               "permutes the leaf taxa; suppress_keeps_leaf_taxa; heap layer: ofTree_repr, removeChild_repr (incl. removed node "
-               "parentless), removeChild_frame, removeChild_refines, addChild_repr, insertChild_repr (fresh node); "
-               "polytomize_fixpoint, dropLeavesFix_fixpoint (fuel suffices). Not proved, only modelled and compared with the "
-               "code every run: heap refinement of remove_child(suppress)/parent setter/Edge.collapse/Edge.invert/reseed chain "
-               "and of add/insert of an already attached or re-attached node; fuel of the filter_leaf_nodes loop and pruneUp; "
-               "clause (c) is decided by the oracle on the implementation after every step. The driver runs `step` per operation "
-               "AND `run` on whole histories (composed model histories are compared with the implementation's final tree).")
+               "and every finite history keeps the rose tree free of shared nodes (nothing more: retention and gain are separate "
+               "theorems); step_keeps_leaves / history_keeps_leaves - NOTHING LOST: for every operation except shuffle_taxa, on a "
+               "tree without shared nodes a taxon-bearing leaf not asked to be removed (nor given a child) stays a leaf, same "
+               "node, same taxon; step_no_new_node_taxon - no node acquires a taxon it did not carry; step_no_new_leaf - NOTHING "
+               "GAINED, under the explicit scope 'no internal node carries a taxon': no taxon-bearing leaf appears except on "
+               "nodes the operation created (without that scope the clause is false in model and library alike: an emptied "
+               "taxon-bearing internal node is a new taxon-bearing leaf); shuffle_keeps_leaf_taxa - a permutation; "
+               "suppress_keeps_leaf_taxa; heap layer: ofTree_repr, removeChild_repr/_frame/_refines, addChild_repr, "
+               "insertChild_repr, addChild_refines (add_child / insert_child of a NEW childless node only); polytomize_fixpoint, "
+               "dropLeavesFix_fixpoint. Not proved, only modelled and compared with the code every run: heap refinement of "
+               "remove_child(suppress)/parent setter/Edge.collapse/Edge.invert/reseed chain and of add/insert of an existing or "
+               "re-attached node; fuel of the filter_leaf_nodes loop and pruneUp; the error clause (the model has no partially "
+               "mutated states: judged by the oracle after every raise); clause (c) (oracle only). The driver runs `step` per "
+               "operation and `run` on whole histories without node-creating operations.")
 
 DOC_ERRORS = ("ValueError", "TypeError", "SeedNodeDeletionException")
 FLAG_OPS_UB = {"reseed", "rerootnode", "rerootedge", "outgroup", "suppress", "collapseunweighted", "resolve", "resolve_rng",
@@ -630,6 +635,24 @@ def leaf_taxon_problems(world, snap, op):
     if len(set(after_leaf_bits)) != len(after_leaf_bits) and len(set(b for b in snap.taxbit if b is not None)) == len(
             [b for b in snap.taxbit if b is not None]) and op["op"] not in ("addsub", "insertsub"):
         probs.append("a taxon now occurs on two leaves")
+    # GAIN: when only leaves carry taxa (the scope of `step_no_new_leaf`), no taxon-bearing leaf may appear that was not one
+    # before, except on a node the operation created or re-attached.  (With taxon-bearing internal nodes a gain is what the
+    # library does by design of the operation - an emptied internal node IS a leaf - and is not judged.)
+    inner_taxon = any(snap.kids[i] and snap.taxbit[i] is not None for i in range(snap.n))
+    if not inner_taxon and op["op"] != "shuffle":
+        was_leaf = set(before_leaves)
+        for nd in after:
+            if nd._child_nodes or nd.taxon is None:
+                continue
+            i = ids.of(nd)
+            if i is None:
+                if op["op"] not in ("newchild", "insertnew") or tns.accession_index(nd.taxon) != op.get("x"):
+                    probs.append("a new taxon-bearing leaf (taxon bit %d) appeared that the operation was not asked to add" % tns.accession_index(nd.taxon))
+            elif i >= snap.n:
+                if op["op"] not in ("addsub", "insertsub"):
+                    probs.append("a detached node re-entered the tree as leaf %d" % i)
+            elif i not in was_leaf:
+                probs.append("node %d became a taxon-bearing leaf (taxon bit %d) although it was not one before" % (i, tns.accession_index(nd.taxon)))
     if op["op"] == "shuffle":
         before_bits = sorted(snap.taxbit[i] for i in before_leaves)
         if after_leaf_bits != before_bits:
@@ -1210,7 +1233,7 @@ def construction_ok(ctx, dendropy, shapes=None):
 def run(ctx):
     dendropy = __import__("dendropy")
     rng = ctx.rng
-    ctx.set_budget(40, 780)
+    ctx.set_budget(35, 740)
     pending, pending_heap = [], []
     if not construction_ok(ctx, dendropy):
         return          # every other case builds its input through these primitives
